@@ -202,6 +202,7 @@ inductive Addr (ι : Type)
   | priv (i : ι)
   | loc (i : ι) (r : Region) (off : Nat)
   | shared (r : Region) (off : Nat)
+  deriving DecidableEq
 
 inductive Cell
   | priv (s : CallState)
@@ -227,10 +228,6 @@ def viewOf {ι : Type} (i : ι) (m : Store ι) : View := fun r off => cellVal (m
 
 section
 variable {ι : Type} [DecidableEq ι]
-
-instance : DecidableEq (Addr ι) := by
-  intro a b
-  cases a <;> cases b <;> simp <;> exact inferInstance
 
 def applyWrites (i : ι) (m : Store ι) : List MemWrite → Store ι
   | [] => m
